@@ -652,6 +652,125 @@ def rule_nonblocking(ctx):
     ctx.check(True, "blocking-sites-enumerated", "%d blocking call(s) on the main thread" % n)
 
 
+def natural_loops(b):
+    """[(header, set of blocks)] for every back edge u -> h with h dominating u."""
+    live = b.live_blocks()
+    loops = {}
+    for u in live:
+        if u < 0:
+            continue
+        for h in b.succ(u):
+            if h >= 0 and b.dominates(h, u):
+                body = {h, u}
+                stack = [u]
+                while stack:
+                    x = stack.pop()
+                    if x == h:
+                        continue
+                    for p in b.pred(x):
+                        if p not in body and p in live:
+                            body.add(p)
+                            stack.append(p)
+                loops.setdefault(h, set()).update(body)
+    return sorted(loops.items())
+
+
+def increments(b, blocks):
+    """{local: [block]} for statements `v = v + c` (c >= 1), through the checked-add tuple if present."""
+    out = {}
+    for bi in blocks:
+        for s in b.blocks[bi].stmts:
+            if not mir.is_local(s["lhs"]):
+                continue
+            v = s["lhs"]["l"]
+            rv = s["rv"]
+            src = None
+            if rv.get("k") == "binop" and rv["op"] in ("Add", "AddUnchecked"):
+                src = rv
+            elif rv.get("k") == "use":
+                p = op_place(rv["a"])
+                if p is not None and len(p["p"]) == 1 and isinstance(p["p"][0], dict) and p["p"][0].get("n") == "0":
+                    sd = b.single_def(p["l"])
+                    if sd and sd[2].get("k") == "binop" and sd[2]["op"] == "AddWithOverflow":
+                        src = sd[2]
+            if src is None:
+                continue
+            a, c = op_place(src["a"]), const_int(src["b"])
+            if a is None or c is None or c < 1:
+                continue
+            base = a["l"]
+            sd = b.single_def(base)
+            if sd and sd[2].get("k") == "use" and op_place(sd[2]["a"]) is not None:
+                base = op_place(sd[2]["a"])["l"]
+            if base == v and mir.is_local(a):
+                out.setdefault(v, []).append(bi)
+    return out
+
+
+def rule_loops(ctx):
+    """Every loop of the input layer makes progress on every cycle: it advances a (finite) iterator, reads input, or
+    increments the counter its exit test compares -- so no input line can make the main thread spin."""
+    ix = ctx.ix
+    bodies, _ = scope_bodies(ix)
+    n = 0
+    seen = {}
+    for b in bodies:
+        for h, blocks in natural_loops(b):
+            n += 1
+            prog = set()
+            kinds = set()
+            for bi in blocks:
+                t = b.blocks[bi].term
+                if t["k"] == "call":
+                    c = strip_generics(t.get("callee") or "")
+                    if c.endswith("::next") or c.endswith("::next_back"):
+                        prog.add(bi)
+                        kinds.add("iterator")
+                    if c.endswith("::read_line") or c.endswith("::read_until"):
+                        prog.add(bi)
+                        kinds.add("input")
+            incs = increments(b, blocks)
+            # counters compared by a test that can leave the loop
+            for v, bis in incs.items():
+                compared = False
+                for bi in blocks:
+                    t = b.blocks[bi].term
+                    if t["k"] == "switch" and any(x not in blocks for x in b.succ(bi)):
+                        p = op_place(t["discr"])
+                        sd = b.single_def(p["l"]) if p is not None and mir.is_local(p) else None
+                        if sd and sd[2].get("k") == "binop" and sd[2]["op"] in ("Lt", "Le", "Gt", "Ge", "Ne"):
+                            for o in (sd[2]["a"], sd[2]["b"]):
+                                q = op_place(o)
+                                if q is not None and mir.is_local(q):
+                                    l = q["l"]
+                                    sdd = b.single_def(l)
+                                    if sdd and sdd[2].get("k") == "use" and op_place(sdd[2]["a"]) is not None:
+                                        l = op_place(sdd[2]["a"])["l"]
+                                    if l == v:
+                                        compared = True
+                if compared:
+                    prog.update(bis)
+                    kinds.add("counter `%s`" % b.local_name(v))
+            # a progress-free cycle: h reachable from h inside the loop without touching a progress block
+            free = False
+            if h not in prog:
+                stack = [x for x in b.succ(h) if x in blocks and x not in prog]
+                vis = set()
+                while stack:
+                    x = stack.pop()
+                    if x == h:
+                        free = True
+                        break
+                    if x in vis:
+                        continue
+                    vis.add(x)
+                    stack.extend(y for y in b.succ(x) if y in blocks and y not in prog)
+            key = dedup(seen, site_key(b, "loop", "progress"))
+            ctx.check(not free and bool(prog), key, "loop at line %s advances on every cycle (%s)" % (b.blocks[h].term["line"], ", ".join(sorted(kinds)) or "-"), b.where(h),
+                      bad_what="the loop at line %s has a cycle that neither advances an iterator, reads input, nor increments the counter its exit test compares: some input can make the main thread spin forever" % b.blocks[h].term["line"])
+    ctx.floor("loops in the input layer", n, 3)
+
+
 def rule_errors_continue(ctx):
     from . import c10
     c10.rule_no_swallow(ctx)
@@ -659,7 +778,7 @@ def rule_errors_continue(ctx):
 
 RULES = [("scope", rule_scope), ("index", rule_index), ("arith", rule_arith), ("no-assert-on-input", rule_no_assert_on_input),
          ("unwrap", rule_unwrap), ("boundary", rule_boundary), ("io-exits", rule_io_and_exits), ("nonblocking", rule_nonblocking),
-         ("errors-continue", rule_errors_continue)]
+         ("loops", rule_loops), ("errors-continue", rule_errors_continue)]
 
 
 CLIPPY_LINTS = ("indexing_slicing", "unwrap_used", "expect_used", "panic", "unreachable", "unimplemented", "todo", "exit")
